@@ -153,7 +153,8 @@ def check_case(case, ctx):
         g.s_ppo_to_ppi(time=t)
         gref.s_ppo_to_ppi(time=t)
         # state elements that nobody reads have no input slot: what is transferred to their rows is immaterial (the GPU path skips them)
-        ff_rows = [i for i, (k, _) in enumerate(b.s_order) if k == 'ff' and int(np.asarray(gref.c_locs)[gref.ppi_offset + i]) >= 0]
+        # (primary-input rows are compared too: transferring captured state to the state elements must leave the input stimulus alone on both paths)
+        ff_rows = [i for i, (k, _) in enumerate(b.s_order) if k in ('ff', 'in') and int(np.asarray(gref.c_locs)[gref.ppi_offset + i]) >= 0]
         if not eq('gpu_ppo_to_ppi', np.asarray(g.s)[0:3][:, ff_rows], np.asarray(gref.s)[0:3][:, ff_rows], 'state rows of s[0:3] after s_ppo_to_ppi'):
             return
         # (d) allocation size
